@@ -815,7 +815,8 @@ def run(ctx: Ctx) -> None:
     file_line_case(ctx, sw)
 
     # ---- junk --------------------------------------------------------------------------------------
-    junk = list(JUNK) + [(c['kind'], c['class'], c['text']) for c in load_corpus() if c.get('stream') == 'junk']
+    junk = [(c['kind'], c['class'], c['text']) for c in load_corpus() if c.get('stream') == 'junk']  # corpus first
+    junk += [j for j in JUNK if (j[0], j[2]) not in {(k, t) for k, _, t in junk}]
     for kind, cls, text in junk:
         if ctx.time_left() < 10:
             ctx.notes.append('junk stream cut by the budget')
